@@ -58,7 +58,8 @@ def required(tier):
           'cond:limit+offset', 'cond:sample', 'cond:ranges', 'cond:types', 'db:shipped',
           'db:generated', 'result:non-empty', 'result:empty', 'cond:zero-bound',
           'history:interleaved-consumption',
-          'history:modified-copy-run-before-the-original-is-read']
+          'history:modified-copy-run-before-the-original-is-read',
+          'cond:sample:very-small-fraction']
     return {'classes': cl, 'evaluations': 1500}
 
 
@@ -280,7 +281,8 @@ def run_shard(spec, rec):
                 return date(1970, 1, 1) + timedelta(days=rng.choice(days))
             return d_lo + timedelta(days=rng.randint(-3, (d_hi - d_lo).days + 3))
 
-        ks = [spec['only']] if 'only' in spec else range(spec['n'])
+        ks = ([] if spec.get('only') == 'tiny-sample' else [spec['only']]) if 'only' in spec \
+            else range(spec['n'])
         for k in ks:
             rng = random.Random(f"{spec['seed']}-{k}")
             case = {'spec': {kk: spec[kk] for kk in ('seed', 'n', 'db')}, 'k': k}
@@ -517,6 +519,36 @@ def run_shard(spec, rec):
                     rec.sample(desc)
             except Mismatch as m:
                 rec.violation(m.mechanism, m.detail, case)
+        # ---- very small sampling fractions (thinning a large schedule): judged on the total of
+        # many repetitions, expected total about 4 -> Poisson band ------------------------------
+        if 'only' not in spec or spec['only'] == 'tiny-sample':
+            rng2 = random.Random(f"{spec['seed']}-tiny-sample")
+            n_all = len(T.rows)
+            p_small = rng2.choice([1e-5, 3e-5, 2e-6])
+            reps = max(20, min(4000, int(round(4.0 / (n_all * p_small)))))
+            lam = reps * n_all * p_small
+            total = 0
+            try:
+                for _ in range(reps):
+                    total += sum(1 for _x in db(Query(sample=p_small)))
+            except Exception as e:  # noqa: BLE001
+                rec.violation('a sampling query raised',
+                              {'sample': p_small, 'error': f'{type(e).__name__}: {e}'},
+                              {'spec': {'seed': spec['seed'], 'n': spec['n'], 'db': spec['db']},
+                               'k': 'tiny-sample'})
+                total = None
+            rec.ev()
+            if total is not None:
+                hi = lam + 6 * math.sqrt(lam) + 4
+                if total > hi:
+                    rec.violation('sample size outside the 6-sigma band for a very small '
+                                  'sampling fraction (summed over many repetitions)',
+                                  {'sample': p_small, 'repetitions': reps, 'instances': n_all,
+                                   'expected_total': lam, 'got_total': total, 'upper_bound': hi},
+                                  {'spec': {'seed': spec['seed'], 'n': spec['n'],
+                                            'db': spec['db']}, 'k': 'tiny-sample'})
+                else:
+                    rec.cls('cond:sample:very-small-fraction')
         db.close()
     finally:
         Config.reset()
